@@ -37,6 +37,7 @@ fn entry(kind: &str, i: usize) -> Value {
         "call" => json!({"jsonrpc":"2.0","id":i,"method":"echo","params":[i]}),
         "notification" => json!({"jsonrpc":"2.0","method":"echo","params":[i]}),
         "invalid-with-id" => json!({"id":i,"foo":"boo"}),
+        "invalid-with-text-id" => json!({"jsonrpc":"2.0","id":format!("e{i}"),"method":1}),
         _ => json!(17),
     }
 }
@@ -52,15 +53,16 @@ fn expected(kinds: &[&str]) -> Option<Value> {
             "call" => out.push(json!({"jsonrpc":"2.0","id":i,"result":i})),
             "notification" => {}
             "invalid-with-id" => out.push(json!({"jsonrpc":"2.0","id":i,"error":{"code":-32600,"message":"Invalid request"}})),
+            "invalid-with-text-id" => out.push(json!({"jsonrpc":"2.0","id":format!("e{i}"),"error":{"code":-32600,"message":"Invalid request"}})),
             _ => out.push(json!({"jsonrpc":"2.0","id":null,"error":{"code":-32600,"message":"Invalid request"}})),
         }
     }
     if out.is_empty() { None } else { Some(Value::Array(out)) }
 }
 
-/// args {k, limit}: all batches over the four entry kinds up to length 3, under Unlimited, Limit(len-1), Limit(len), Limit(len+1), Disabled
+/// args {k, limit}: all batches over the five entry kinds up to length 3, under Unlimited, Limit(len-1), Limit(len), Limit(len+1), Disabled
 pub fn batches(_a: &Value) -> Value {
-    let kinds = ["call", "notification", "invalid-with-id", "non-object"];
+    let kinds = ["call", "notification", "invalid-with-id", "invalid-with-text-id", "non-object"];
     let mut shapes: Vec<Vec<&str>> = vec![vec![]];
     for a in kinds { shapes.push(vec![a]); for b in kinds { shapes.push(vec![a, b]); } }
     for a in kinds { for b in kinds { shapes.push(vec![a, b, "call"]); } }
